@@ -74,6 +74,11 @@ def cases(tier, seed):
                     yield f"C11|sc-rule|N={N},{regime},pi={int(pi)},block{blk:02d}", {"kind": "sc-rule", "N": N, "regime": regime, "pi": pi, "blk": blk, "nb": nb, "tier": tier}
 
 
+def cost(p):
+    """scheduling hint: long codes first"""
+    return p.get("N", 0) * len(p.get("ks", [1]))
+
+
 def component_of(p):
     return {"rank": "encoder", "enc": "encoder", "mask": "encoder", "sc": "sc", "bp": "polar-bp", "sc-rule": "sc"}[p["kind"]]
 
@@ -100,7 +105,7 @@ def _msgs(k):
         e[i] = 1
         s.append(e)
         s.append([1 - b for b in e])
-        for j in range(i):
+        for j in (range(i) if k <= 48 else sorted({i - 1, 0, i // 2} - {i, -1})):     # all pairs for short messages, three partners each above
             e2 = list(e)
             e2[j] = 1
             s.append(e2)
